@@ -266,3 +266,172 @@ Proof.
   unfold all_series in Hall. rewrite Forall_forall in Hall. destruct (Hall o Ho) as [s ->]. simpl.
   rewrite reindex_m_val_at. apply at_map_fn. exact Ht.
 Qed.
+
+(* ------------------------------------------------------------------ whole DataFrames *)
+Lemma reindex_m_row_val m c r idx : reindex_m (nanrow c) row_isnan m r idx = map (fun t => (t, row_val m c r t)) idx.
+Proof. destruct m; reflexivity. Qed.
+
+Lemma column_map_fn c (g : Z -> list cell) idx x :
+  column c (map (fun t => (t, g t)) idx) x = map (fun t => (t, row_get c (g t) x)) idx.
+Proof. unfold column. rewrite map_map. reflexivity. Qed.
+
+(* the column set by policy is made of columns of the operands *)
+Lemma join_cols_subset ch ca cb C : (forall x, ch <> HX x) -> join_index ch [ca; cb] = Some C ->
+  forall x, In x C -> In x ca \/ In x cb.
+Proof.
+  intros Hx H x Hin. pose proof (join_index_spec ch _ C H) as S. destruct ch.
+  - left. apply (proj1 (S x) Hin). left. reflexivity.
+  - destruct (proj1 (S x) Hin) as [i [[<-|[<-|[]]] Hi]]; auto.
+  - destruct S as [rest E]. inversion E. subst. auto.
+  - simpl in H. inversion H. subst. auto.
+  - exfalso. apply (Hx idx). reflexivity.
+Qed.
+
+Section FRAMES.
+  Variable opc : cell -> cell -> cell.
+
+  Lemma op2_ss (fa fb : Z -> cell) P :
+    op2 opc (OS (map (fun t => (t, fa t)) P)) (OS (map (fun t => (t, fb t)) P)) = OS (map (fun t => (t, opc (fa t) (fb t))) P).
+  Proof.
+    simpl. f_equal. rewrite map_map. apply map_ext_in. intros t Ht. simpl. rewrite (at_map_fn fb P t Ht). reflexivity.
+  Qed.
+  Lemma op2_sn (fa : Z -> cell) d P :
+    op2 opc (OS (map (fun t => (t, fa t)) P)) (ON d) = OS (map (fun t => (t, opc (fa t) d)) P).
+  Proof. simpl. f_equal. rewrite map_map. reflexivity. Qed.
+  Lemma op2_ns (fb : Z -> cell) d P :
+    op2 opc (ON d) (OS (map (fun t => (t, fb t)) P)) = OS (map (fun t => (t, opc d (fb t))) P).
+  Proof. simpl. f_equal. rewrite map_map. reflexivity. Qed.
+
+  (* the per-column call for column x yields the series of opc applied to the two operand cells *)
+  Lemma call_series_frames m d ca ra cb rb P x : multi ca = true -> multi cb = true -> In x ca \/ In x cb ->
+    call_series opc (Some x, [Leaf (column_obj (Some x) d (OF ca (map (fun t => (t, row_val m ca ra t)) P)));
+                              Leaf (column_obj (Some x) d (OF cb (map (fun t => (t, row_val m cb rb t)) P)))])
+    = map (fun t => (t, opc (fcell m d ca ra x t) (fcell m d cb rb x t))) P.
+  Proof.
+    intros Ha Hb Hx. unfold call_series, fcell. cbn [snd].
+    destruct (mem x ca) eqn:Ea; destruct (mem x cb) eqn:Eb.
+    - apply mem_In in Ea. apply mem_In in Eb.
+      rewrite (column_obj_has x d ca _ Ha Ea), (column_obj_has x d cb _ Hb Eb), !column_map_fn, op2_ss. reflexivity.
+    - apply mem_In in Ea. assert (Nb : ~ In x cb) by (intros Q; apply mem_In in Q; congruence).
+      rewrite (column_obj_has x d ca _ Ha Ea), (column_obj_lacks x d cb _ Hb Nb), column_map_fn, op2_sn. reflexivity.
+    - apply mem_In in Eb. assert (Na : ~ In x ca) by (intros Q; apply mem_In in Q; congruence).
+      rewrite (column_obj_lacks x d ca _ Ha Na), (column_obj_has x d cb _ Hb Eb), column_map_fn, op2_ns. reflexivity.
+    - exfalso. destruct Hx as [Q|Q]; apply mem_In in Q; congruence.
+  Qed.
+
+  Definition frame_result m d ca ra cb rb (C P : list Z) : obj :=
+    match C with
+    | [] => OS []
+    | _ => OF C (map (fun t => (t, map (fun x => opc (fcell m d ca ra x t) (fcell m d cb rb x t)) C)) P)
+    end.
+
+  (* two proper frames: presync's column dispatch + _convert give exactly the frame of the cellwise results *)
+  Theorem binop_frames h m ch d ca ra cb rb P C : multi ca = true -> multi cb = true -> (forall x, ch <> HX x) ->
+    join_index h [index_of ra; index_of rb] = Some P -> join_index ch [ca; cb] = Some C ->
+    binop opc h m ch d (OF ca ra) (OF cb rb) = frame_result m d ca ra cb rb C P.
+  Proof.
+    intros Ha Hb Hch HP HC. pose proof (join_cols_subset ch ca cb C Hch HC) as Hsub.
+    unfold binop, presync_calls. simpl flat_map. unfold df_index. simpl pd_indexes. rewrite HP.
+    simpl frame_cols. rewrite Ha, Hb. simpl app. rewrite HC.
+    cbn [map tmap reindex_obj]. rewrite !reindex_m_row_val.
+    unfold frame_result. destruct C as [|x0 C']; [reflexivity|].
+    set (C := x0 :: C') in *.
+    set (mk := fun x : Z => (Some x, [Leaf (column_obj (Some x) d (OF ca (map (fun t => (t, row_val m ca ra t)) P)));
+                                     Leaf (column_obj (Some x) d (OF cb (map (fun t => (t, row_val m cb rb t)) P)))])).
+    change (assemble opc (map mk C) (has1 (OF ca ra) || has1 (OF cb rb)) =
+            OF C (map (fun t => (t, map (fun x => opc (fcell m d ca ra x t) (fcell m d cb rb x t)) C)) P)).
+    assert (Hs : map (call_series opc) (map mk C) = map (fun x => map (fun t => (t, opc (fcell m d ca ra x t) (fcell m d cb rb x t))) P) C).
+    { rewrite map_map. apply map_ext_in. intros x Hx. unfold mk. apply call_series_frames; auto. }
+    assert (Hc : map (fun c : option Z * list tree => match fst c with Some x => x | None => 0 end) (map mk C) = C).
+    { rewrite map_map. unfold mk. cbn [fst]. clear. generalize C. intros l. induction l as [|y l IH]; simpl; [reflexivity | rewrite IH; reflexivity]. }
+    assert (Hasm : assemble opc (map mk C) (has1 (OF ca ra) || has1 (OF cb rb)) =
+                   let sers := map (call_series opc) (map mk C) in
+                   let idx := match sers with s :: _ => index_of s | [] => [] end in
+                   OF (map (fun c : option Z * list tree => match fst c with Some x => x | None => 0 end) (map mk C))
+                      (map (fun t => (t, map (fun s => at_ None s t) sers)) idx)).
+    { unfold C, mk. reflexivity. }
+    rewrite Hasm. cbv zeta. rewrite Hs, Hc.
+    assert (Hidx : match map (fun x => map (fun t => (t, opc (fcell m d ca ra x t) (fcell m d cb rb x t))) P) C with
+                   | [] => [] | s :: _ => index_of s end = P).
+    { unfold C. cbn [map]. apply (index_map_fn (fun t => opc (fcell m d ca ra x0 t) (fcell m d cb rb x0 t))). }
+    f_equal. etransitivity; [apply f_equal; exact Hidx|].
+    apply map_ext_in. intros t Ht. f_equal.
+    rewrite map_map. apply map_ext. intros x.
+    apply (at_map_fn (fun t => opc (fcell m d ca ra x t) (fcell m d cb rb x t)) P t Ht).
+  Qed.
+
+  (* reading a cell of the result frame *)
+  Theorem frame_result_cell m d ca ra cb rb C P t x : In t P -> In x C ->
+    frame_cell (frame_result m d ca ra cb rb C P) t x = opc (fcell m d ca ra x t) (fcell m d cb rb x t).
+  Proof.
+    intros Ht Hx. unfold frame_result. destruct C as [|x0 C']; [destruct Hx|].
+    set (C := x0 :: C') in *. unfold frame_cell, at_.
+    rewrite (lookup_map_fn (nanrow C) row_isnan (fun t => map (fun x => opc (fcell m d ca ra x t) (fcell m d cb rb x t)) C) P t Ht).
+    apply (row_get_map C (fun x => opc (fcell m d ca ra x t) (fcell m d cb rb x t)) x Hx).
+  Qed.
+
+  Theorem frame_result_shape m d ca ra cb rb C P : C <> [] ->
+    exists rows, frame_result m d ca ra cb rb C P = OF C rows /\ index_of rows = P.
+  Proof.
+    intros HC. unfold frame_result. destruct C as [|x0 C']; [contradiction|].
+    eexists. split; [reflexivity|].
+    apply (index_map_fn (fun t => map (fun x => opc (fcell m d ca ra x t) (fcell m d cb rb x t)) (x0 :: C'))).
+  Qed.
+
+  (* commutativity for whole frames *)
+  Theorem binop_frames_comm h m ch d ca ra cb rb : (forall x y, opc x y = opc y x) ->
+    multi ca = true -> multi cb = true -> sorted (index_of ra) -> sorted (index_of rb) -> sorted ca -> sorted cb ->
+    (h = HI \/ h = HO) -> (ch = HI \/ ch = HO) ->
+    binop opc h m ch d (OF ca ra) (OF cb rb) = binop opc h m ch d (OF cb rb) (OF ca ra).
+  Proof.
+    intros Hc Ha Hb Sra Srb Sca Scb Hh Hch.
+    assert (Hnx : forall x, ch <> HX x) by (intros x E; destruct Hch; subst; discriminate).
+    destruct (join_index h [index_of ra; index_of rb]) as [P1|] eqn:H1; [|destruct Hh; subst; discriminate].
+    destruct (join_index h [index_of rb; index_of ra]) as [P2|] eqn:H2; [|destruct Hh; subst; discriminate].
+    destruct (join_index ch [ca; cb]) as [C1|] eqn:G1; [|destruct Hch; subst; discriminate].
+    destruct (join_index ch [cb; ca]) as [C2|] eqn:G2; [|destruct Hch; subst; discriminate].
+    rewrite (binop_frames h m ch d ca ra cb rb P1 C1 Ha Hb Hnx H1 G1), (binop_frames h m ch d cb rb ca ra P2 C2 Hb Ha Hnx H2 G2).
+    rewrite (join2_comm h _ _ P1 P2 Sra Srb Hh H1 H2), (join2_comm ch _ _ C1 C2 Sca Scb Hch G1 G2).
+    unfold frame_result. destruct C2; [reflexivity|]. f_equal. apply map_ext. intros t. f_equal. apply map_ext. intros x. apply Hc.
+  Qed.
+End FRAMES.
+
+(* without a fill method the operand cell is the frame's own cell at (t, x), NaN when the frame lacks t *)
+Lemma fcell_none d c r x t : In x c ->
+  fcell MNone d c r x t = match lookup t r with Some row => row_get c row x | None => None end.
+Proof.
+  intros Hx. unfold fcell. apply mem_In in Hx. rewrite Hx. simpl. unfold at_.
+  destruct (lookup t r); [reflexivity | apply row_get_nanrow].
+Qed.
+Lemma fcell_missing m d c r x t : ~ In x c -> fcell m d c r x t = d.
+Proof. intros Hx. unfold fcell. destruct (mem x c) eqn:E; [apply mem_In in E; contradiction | reflexivity]. Qed.
+
+(* ------------------------------------------------------------------ concrete cell operations *)
+Lemma powc_spec a b : 0 <= b -> powc (Some a) (Some b) = Some (a ^ b).
+Proof.
+  intros Hb. destruct a as [|[q|q|]|q], b as [|p|p]; try reflexivity; try lia.
+  unfold powc. rewrite Z.pow_1_l by lia. reflexivity.
+Qed.
+Lemma powc_nan : powc None (Some 0) = Some 1 /\ (forall y, powc (Some 1) y = Some 1) /\
+  (forall b, b <> 0 -> powc None (Some b) = None) /\ (forall a, a <> 1 -> powc (Some a) None = None).
+Proof.
+  split; [reflexivity|]. split; [intros [[| |]|]; reflexivity|]. split.
+  - intros b Hb. destruct b; [contradiction | reflexivity | reflexivity].
+  - intros a Ha. destruct a as [|[q|q|]|q]; try reflexivity. contradiction.
+Qed.
+Lemma cmpc_spec f a b : cmpc f (Some a) (Some b) = Some (if f a b then 1 else 0) /\
+  (forall x, cmpc f None x = Some 0) /\ (forall x, cmpc f x None = Some 0).
+Proof. repeat split; intros [x|]; reflexivity. Qed.
+Lemma minmaxc_spec a b : minc (Some a) (Some b) = Some (Z.min a b) /\ maxc (Some a) (Some b) = Some (Z.max a b) /\
+  (forall x, minc None x = None /\ minc x None = None /\ maxc None x = None /\ maxc x None = None).
+Proof. repeat split; try reflexivity; destruct x; reflexivity. Qed.
+
+(* min_ / max_ on two series: df_sync then np.minimum / np.maximum = the same pointwise law *)
+Theorem minmax_series opc h m ch a b P : join_index h [index_of a; index_of b] = Some P ->
+  minmax opc h m ch [OS a; OS b] = Some (OS (map (fun t => (t, opc (val_at m a t) (val_at m b t))) P)).
+Proof.
+  intros HP. unfold minmax, df_sync. cbn [map]. cbn [flatten flat_map app].
+  unfold df_index. simpl pd_indexes. rewrite HP. simpl frame_cols.
+  replace (join_index ch []) with (@None (list Z)) by reflexivity.
+  cbn [tmap map flatten flat_map app reindex_obj fold_left mm2]. rewrite !reindex_m_val_at. rewrite op2_ss. reflexivity.
+Qed.
